@@ -24,6 +24,9 @@ func init() {
 
 func c19() []*Ob {
 	return []*Ob{
+		{Prop: "C19", ID: "C19.14", Engine: "ORDER(snapshot)", Floor: 1,
+			Desc:  "Done describes what was merged: every read of the requests table in FetchSearchResult precedes the listing of the partial-result files — a status re-read after the merge is newer than the list, and a fetch that overlaps the worker's last step answers Done=true with the earlier fractions only",
+			Check: func(c *Ctx) { statusBelongsToTheList(c) }},
 		{Prop: "C19", ID: "C19.12", Engine: "PAIR(two sites)", Floor: 1,
 			Desc:  "every partial result is merged once: FetchSearchResult decodes each .qpr file into a new QPR, or AggregatableSamples.UnmarshalJSON replaces its map on every decode",
 			Check: func(c *Ctx) { partialResultDecodedFresh(c) }},
